@@ -106,7 +106,9 @@ Section Scopes.
       all_missing_bindings of the pattern's own required bindings, then, constraint by
       constraint, the missing bindings of its arguments.  add_match never overwrites and the
       later stages copy the list, so every accepting state of the finished automaton carries
-      exactly this list for the pattern — compared with the dump, order included. *)
+      this list for the pattern — compared with the dump as a set (missing_bindings may list
+      the prerequisites of a key in any prerequisite-first order; that the recorded list is
+      prerequisite-first is checked on the dump by wf_check). *)
   Fixpoint pattern_keys_loop (fuel : nat) (cs : list C) (rb : list K) : res (list K) :=
     match cs with
     | [] => Ok rb
@@ -125,7 +127,7 @@ Section Scopes.
         match nth_error pats (N.to_nat (fst pk)) with
         | Some (Some (extra, cs)) =>
             match pattern_keys fuel extra cs with
-            | Ok l => if list_eqb (keqb D) l (snd pk) then [] else [(a_id s, fst pk)]
+            | Ok l => if same_keys l (snd pk) then [] else [(a_id s, fst pk)]
             | _ => [(a_id s, fst pk)]
             end
         | _ => [(a_id s, fst pk)]
